@@ -203,6 +203,15 @@ def case_raire_readers(rep):
             f.write("\n".join(",".join(r) for r in rows) + "\n")
             path = f.name
         try:
+            # the file-level entry point of the audit's reader gives what the row-level one gives on the file's rows
+            try:
+                fcvrs, fread, fdistinct = CVR.from_raire_file(path)
+                fgot = {c.id: c.votes for c in fcvrs}
+                if fgot != got or [c.id for c in fcvrs] != [c.id for c in cvrs] or fdistinct != len(cvrs):
+                    rep.fail("from_raire_file reads the file as from_raire reads its rows (one record per identifier)", inp,
+                             got={"cards": fgot, "distinct": fdistinct}, expected={"cards": got, "distinct": len(cvrs)})
+            except Exception as ex:
+                rep.fail("from_raire_file does not raise", inp, got=type(ex).__name__ + ": " + str(ex)[:80])
             rcontests, rcvrs = load_contests_from_raire(path)
         except Exception as ex:
             rep.fail("load_contests_from_raire does not raise", inp, got=type(ex).__name__ + ": " + str(ex)[:80])
